@@ -273,3 +273,41 @@ def run(ctx):
             gp_blocks = [c.block for c in h.calls("pgcat::client::Client::get_pool", "pgcat::pool::ConnectionPool::get", "pgcat::admin::handle_admin")]
             wit = h.uncrossed_path([0], gp_blocks, edges=Fa)
             r6.check(wit is None, "non-cancel-region", "pool/admin access in handle only on cancel_mode==false", "pool/admin access reachable without testing cancel_mode", "", wit and h.describe_path(wit))
+
+    # ---------------- R7 the hash helpers are functions of their arguments only (round 5)
+    r7 = ctx.rule("C09-R7", "the expected answer depends on nothing but the secret, the user name and the salt handed to the hash helpers: md5_hash_password / md5_hash_second_pass (and every pgcat function they call) "
+                  "touch no static and no shared state, so one login (or one pool's secret) cannot influence what another login is compared against", floor=2)
+
+    def statics_in(body):
+        found = set()
+
+        def walk(x):
+            if isinstance(x, dict):
+                c = x.get("const")
+                if isinstance(c, dict) and "static" in c:
+                    found.add(strip_generics(c["static"]))
+                for v in x.values():
+                    walk(v)
+            elif isinstance(x, list):
+                for v in x:
+                    walk(v)
+        walk(body.blocks)
+        return found
+    for root in ("pgcat::messages::md5_hash_password", "pgcat::messages::md5_hash_second_pass"):
+        rb = ctx.body(root, r7)
+        if not rb:
+            continue
+        bad = []
+        nfn = 0
+        for n in sorted(set(F.reachable_fns([root])) | {root}):
+            b = F.body(n)
+            if b is None or not n.startswith("pgcat::"):
+                continue
+            nfn += 1
+            st = statics_in(b)
+            if st:
+                bad.append("%s uses %s" % (n.split("::")[-1], sorted(st)))
+        r7.check(not bad, "pure:" + root.split("::")[-1], "%s and the %d pgcat function(s) it reaches use no static" % (root.split("::")[-1], nfn - 1),
+                 "%s: the hash a client's answer is compared with can depend on an earlier call (another pool's or the admin's secret for the same user name, a rotated password, a failed login that primed the state)" % "; ".join(bad))
+        rets = [st for b_, i, st in rb.assigns() if st["lhs"]["l"] == 0 and not st["lhs"]["p"]]
+        r7.check(bool(rets) or any(blk["term"]["k"] == "call" and blk["term"]["dest"]["l"] == 0 for blk in rb.blocks), "returns:" + root.split("::")[-1], "%s returns a computed value" % root.split("::")[-1], "%s has no return value assignment" % root)
